@@ -12,7 +12,7 @@ import sympy as sp
 from sympy import Integer
 
 from ..facts import Broken, pp, loc, walk
-from .. import sym, spec, blocks, regions
+from .. import sym, spec, blocks, regions, history
 from ..sym import Interp, Unsupported, Vec, SmallMat, BlockVec, Container, Struct
 from ..model import spline_model
 from ..blocks import BlockRun, CASES
@@ -31,6 +31,8 @@ def run_adjoint(F, M, kind, size=None, resolver=None):
         I.case["size"] = size
     if resolver is not None:
         I.size_resolver = resolver
+    if history.active():
+        I.path_oracle = history.oracle
     I.field_assumptions[M.m_count] = {"positive": True}
     env = {}
     for p in f["params"]:
@@ -133,6 +135,11 @@ def run(chk):
 
 
 def check_class(chk, F, M, short, zero_rows=()):
+    """once per outcome of every history-dependent size guard in the solver / adjoint (sa/history.py)"""
+    history.for_each_outcome(chk, lambda c_: check_class_once(c_, F, M, short, zero_rows))
+
+
+def check_class_once(chk, F, M, short, zero_rows=()):
     """zero_rows: rows c_k of the upstream coefficient gradient assumed identically zero (used by C06-R7: the energy
     partials never populate rows k < s); residuals are compared modulo those rows."""
     cls = M.cls
